@@ -185,17 +185,20 @@ def grep_forbidden(modules):
 def build_harness(prop, cfg, log, race=False):
     """build /verif/harness/cmd/<cxx> against /repo's working tree with the property's overlay files"""
     cxx = prop.lower()
+    # everything that depends on the repository path carries a tag, so that a run against a scratch copy
+    # (VERIF_REPO) never clobbers the files of a run against /repo
+    tag = "" if REPO == "/repo" else "-" + hashlib.sha1(REPO.encode()).hexdigest()[:8]
     rep = {}
     for pre in cfg.get("overlay", [cxx]):
         for f in glob.glob(os.path.join(HARNESS, "overlay", pre + "_*.go")):
             rep[os.path.join(REPO, "zz_verif_" + os.path.basename(f))] = f
     os.makedirs(BUILD, exist_ok=True)
-    ov = os.path.join(BUILD, "overlay_%s.json" % cxx)
+    ov = os.path.join(BUILD, "overlay_%s%s.json" % (cxx, tag))
     json.dump({"Replace": rep}, open(ov, "w"))
-    binp = os.path.join(BUILD, "svh-" + cxx + ("-race" if race else ""))
+    binp = os.path.join(BUILD, "svh-" + cxx + tag + ("-race" if race else ""))
     # per-property module file: `replace sarama => REPO` (REPO is /repo unless VERIF_REPO points to a scratch copy);
     # its go.sum is the repo's
-    modf = os.path.join(BUILD, "gomod_%s.mod" % cxx)
+    modf = os.path.join(BUILD, "gomod_%s%s.mod" % (cxx, tag))
     mod = open(os.path.join(HARNESS, "go.mod")).read().replace("=> /repo", "=> " + REPO)
     open(modf, "w").write(mod)
     try:
@@ -439,7 +442,7 @@ def main():
     stats_all = []
     total_lines = 0
     harness_out = ""
-    outbase = os.path.join(BUILD, "run", prop)
+    outbase = os.path.join(BUILD, "run", prop + ("" if REPO == "/repo" else "-" + hashlib.sha1(REPO.encode()).hexdigest()[:8]))
     brc, bout, binp = build_harness(prop, cfg, log)
     hooks = cfg.get("custom")
     if brc != 0:
